@@ -379,6 +379,11 @@ func (v *V) Coq() (string, bool) {
 			items = append(items, sx)
 			rest = r
 		}
+		if n == 0 {
+			// a body that is a map without entries (not an empty body): the decoder still goes through the refinement
+			// builder, which answers with the trivial refinement of the type; one placeholder item keeps the two apart
+			return "(MUnk 0 [MNil])", true
+		}
 		return "(MUnk " + cq.Z(int64(n)) + " " + cq.List(items) + ")", true
 	}
 	return "", false
